@@ -64,6 +64,16 @@ def bounded(pack, tier, pid='C19'):
         for w in bad[:1]:
             pack.violation('%s/andes/models/group.py:GroupBase.idx2model;get/bounded:known->its-own-model-and-value;None-only-with-allow_none;unknown->KeyError' % pid,
                            {'bounded': True, 'inputs': w, 'native_cmd': 'contracts/bounded_group_lookup.py'})
+    from contracts import bounded_dangling as BD
+    dname = '%s/andes/system.py:System.setup;ExtParam.link_external/bounded:a-mandatory-reference-to-a-missing-device-is-rejected-by-setup' % pid
+    r = native_guard(pack, dname, BD.run)
+    if r is not None:
+        n4, bad4 = r
+        pack.bounded.append({'function': 'System.setup / link_ext_param / ExtParam.link_external / ExtService links (dangling mandatory references)',
+                             'kind': 'bounded native: every mandatory IdxParam of every model present in %s pointed at a missing device, one at a time'
+                                     % ', '.join(BD.CASES), 'cases': n4, 'mismatches': len(bad4), 'counted_as_proved': False})
+        if bad4:
+            pack.violation(dname, {'bounded': True, 'inputs': bad4, 'native_cmd': 'contracts/bounded_dangling.py'})
     r = native_guard(pack, '%s/andes/system.py:System.collect_ref/bounded:runs' % pid, BB.run)
     if r is None:
         return
